@@ -663,6 +663,8 @@ func runStdHistories(r *hlib.Run, std []*pkgData) {
 		n := perCodec
 		if c.kind == 'I' && (c.name == "gif" || c.name == "png") {
 			n *= 4
+		} else if c.kind == 'I' && csClass(c.name, "") == "still" {
+			n = n * 2 / 3 // eleven decoders share one call_sequence text
 		}
 		for k := 0; k < n; k++ {
 			rng := r.Rand.Fork()
